@@ -930,6 +930,28 @@ func main() {
 		contains(fsd, `if t\.T == tMAP \{ err := fetchStructDesc\(t\.K\) if err != nil \{ return err \} return fetchStructDesc\(t\.V\) \} if t\.T == tLIST \|\| t\.T == tSET \{ return fetchStructDesc\(t\.V\) \} if t\.T != tSTRUCT \|\| t\.Sd != nil \{ return nil \} sd, err := newStructDescAndPrefetch\(t\.RT\) if err != nil \{ return err \} t\.Sd = sd buildLinked = append\(buildLinked, t\) return nil`) &&
 		contains(psd, `for i := range d\.fields \{ f := d\.fields\[i\] switch f\.Type\.T \{ case tSTRUCT, tMAP, tLIST, tSET: if err := fetchStructDesc\(f\.Type\); err != nil \{ return err \} \} \} return nil`)
 	w("  buildProtocol := %v\n", proto)
+	// the unknown-field index of UnknownIdx.lean, statement by statement
+	ufAdd := findMethod(rf, "unknownFields", "Add")
+	ufReset := findMethod(rf, "unknownFields", "Reset")
+	ufSize := findMethod(rf, "unknownFields", "Size")
+	ufCopy := findMethod(rf, "unknownFields", "Copy")
+	nAdd := 0
+	for _, f := range rf {
+		ast.Inspect(f, func(n ast.Node) bool {
+			if ce, ok := n.(*ast.CallExpr); ok && strings.HasSuffix(src(ce.Fun), ".Add") && strings.HasPrefix(src(ce.Fun), "ufs") {
+				nAdd++
+			}
+			return true
+		})
+	}
+	ufOK := contains(ufAdd, `\{ p\.sz \+= sz p\.offs = append\(p\.offs, unknownFieldIdx\{off: off, sz: sz\}\) \}$`) &&
+		contains(ufReset, `\{ p\.sz = 0 p\.offs = p\.offs\[:0\] \}$`) &&
+		contains(ufSize, `\{ return p\.sz \}$`) &&
+		contains(ufCopy, `\{ sz := p\.Size\(\) data := mallocgc\(uintptr\(sz\), 0, false\) ret := unsafe\.Slice\(\(\*byte\)\(data\), sz\) off := 0 for _, x := range p\.offs \{ copy\(ret\[off:\], b\[x\.off:x\.off\+x\.sz\]\) off \+= x\.sz \} return ret \}$`) &&
+		nAdd == 1 && contains(dec, `n, err := skipUnknown\(b\[i:\], tp\) if err != nil \{[^}]*\} if ufs != nil \{ ufs\.Add\(i-fieldHeaderLen, n\+fieldHeaderLen\) \} i \+= n continue`) &&
+		contains(dec, `if ufs != nil && ufs\.Size\(\) > 0 \{ \*\(\*\[\]byte\)\(unsafe\.Add\(base, sd\.unknownFieldsOffset\)\) = ufs\.Copy\(b\) \} return i, nil \}$`) &&
+		contains(dec, `fid := binary\.BigEndian\.Uint16\(b\[i:\]\) i \+= 2`) && c["fieldHeaderLen"] == 3
+	w("  unknownIndexProtocol := %v\n", ufOK)
 	// C18 escape facts
 	hot, allHeap := escapeFacts(*repo, rf)
 	w("  hotPathHeapSites := %d\n  hotPathHeapSiteList := [%s]\n  escapeAnalysisRan := %v\n", len(hot), strings.Join(hot, ", "), allHeap >= 0)
